@@ -512,6 +512,70 @@ fn actor_replay_part(out: &mut Out, thorough: bool, rng: &mut Rng) {
     }
 }
 
+/// Seed replay on models built from the PROVIDED ordered-reliable-link wrapper (src/actor/ordered_reliable_link.rs): a
+/// sender wrapped in the link sends several messages to one peer; on an ordered network the link's resend timer puts
+/// everything that is still unacknowledged back on the wire. Two separately built instances of the same model, same seed,
+/// same chooser, one thread, must replay the same first trace — and the simulation must not die in `Path::from_fingerprints`
+/// because re-executing the model from the initial state yields another successor than the first execution did.
+fn orl_replay_part(out: &mut Out, thorough: bool, rng: &mut Rng) {
+    use stateright::actor::ordered_reliable_link::*;
+    use stateright::actor::*;
+    use stateright::{Checker, Expectation, Model};
+    use std::borrow::Cow;
+    use std::sync::{Arc, Mutex};
+    #[derive(Clone)]
+    struct S(u8);
+    impl Actor for S {
+        type Msg = u8; type State = u8; type Timer = (); type Random = ();
+        fn on_start(&self, id: Id, o: &mut Out<Self>) -> u8 {
+            if usize::from(id) == 0 { for m in 1..=self.0 { o.send(Id::from(1), m); } }
+            0
+        }
+        fn on_msg(&self, _id: Id, state: &mut Cow<u8>, _src: Id, msg: u8, _o: &mut Out<Self>) { *state.to_mut() = msg; }
+    }
+    let n = if thorough { 40 } else { 10 };
+    for i in 0..n {
+        let seed = rng.next() % 10_000;
+        let n_msgs = 2 + (i % 4) as u8;
+        let ordered = i % 5 != 4;
+        let run = move || -> Result<Vec<String>, ()> {
+            let seen: Arc<Mutex<Vec<String>>> = Arc::new(Mutex::new(vec![]));
+            let s2 = seen.clone();
+            let r = std::panic::catch_unwind(std::panic::AssertUnwindSafe(|| {
+                let net = if ordered { Network::new_ordered([]) } else { Network::new_unordered_nonduplicating([]) };
+                let _ = ActorModel::new((), ())
+                    .actor(ActorWrapper::with_default_timeout(S(n_msgs))).actor(ActorWrapper::with_default_timeout(S(n_msgs)))
+                    .init_network(net)
+                    .property(Expectation::Always, "true", |_, _| true)
+                    .checker().threads(1).target_state_count(400).target_max_depth(12)
+                    .visitor(move |p: stateright::Path<_, _>| s2.lock().unwrap().push(p.encode()))
+                    .spawn_simulation(seed, stateright::UniformChooser).join();
+            }));
+            if r.is_err() { return Err(()); }
+            let v = seen.lock().unwrap().clone();
+            let mut tr = vec![];
+            for (k, e) in v.iter().enumerate() {
+                if k > 0 && e.matches('/').count() == 0 { break; }
+                tr.push(e.clone());
+            }
+            Ok(tr)
+        };
+        let (a, b) = (run(), run());
+        out.stat(if ordered { "orl-replay-ordered-network" } else { "orl-replay-unordered-network" });
+        out.distinct(&("orl-replay", seed, n_msgs, ordered));
+        match (a, b) {
+            (Ok(a), Ok(b)) => {
+                if a.len() >= 4 { out.stat("orl-replay-trace-of-length>=4"); }
+                if a != b {
+                    let k = a.iter().zip(b.iter()).position(|(x, y)| x != y).unwrap_or(a.len().min(b.len()));
+                    out.v("orl-seed-replay-differs", &format!("ordered-reliable-link model ({} messages to one peer, {} network), two instances, seed {}: first traces differ at step {}", n_msgs, if ordered { "ordered" } else { "unordered" }, seed, k));
+                }
+            }
+            _ => out.v("orl-simulation-panicked", &format!("ordered-reliable-link model ({} messages to one peer, {} network), seed {}: the single-threaded simulation panicked (a path could not be rebuilt from its fingerprints: re-executing the model gave other successors)", n_msgs, if ordered { "ordered" } else { "unordered" }, seed)),
+        }
+    }
+}
+
 /// "An unexpired timeout changes neither results nor PROGRESS" at the level of the job market (src/job_market.rs through
 /// the `stateright::verif::Market` facade): on a market created with a deadline one hour away, `n` workers wait in `pop()`;
 /// another thread then publishes work — `push` of one batch per waiting worker, or one `split_and_push` of a deque with
@@ -647,6 +711,7 @@ fn main() {
         market_timeout_neutral_part(&mut out, th, &mut rng);
         timing_part(&mut out, th, &mut rng);
         actor_replay_part(&mut out, th, &mut rng);
+        orl_replay_part(&mut out, th, &mut rng);
     }
     out.finish();
 }
